@@ -164,6 +164,9 @@ func GenConfig(prop, tier string, seed uint64) Config {
 	if (prop == "C22" || prop == "C03") && c.KF != "" && r.Chance(0.4) {
 		c.KF = []string{"mmapped-chunks-of-duplicate-series-ref-lost-after-snapshot-restart", "kill-during-head-chunk-repair-leaves-newer-files-and-loses-wal-samples"}[r.Intn(2)]
 	}
+	if prop == "C04" && c.KF != "" && r.Chance(0.4) {
+		c.KF = "ooo-samples-lost-when-head-chunk-damage-splits-chunks-m-mapped-together"
+	}
 	if prop == "C15" && c.KF != "" && r.Chance(0.5) {
 		c.KF = "wal-keeps-records-of-series-whose-label-record-was-dropped"
 	}
